@@ -17,6 +17,7 @@ Not decided: equality of heads/facts/hello head over all delivery histories (val
 from rules.core import rt, pat
 
 CRATES = ["aranya_runtime"]
+THOROUGH_CONFIGS = ["lowmem"]   # thorough tier: the same rules on the low-mem-usage build
 
 
 def run(F, rep, tier):
